@@ -125,6 +125,28 @@ def run(ctx):
     from .C01 import class_escape_closures
     ctx.rule("RAW-1", "in the bracket-class printer no member is formatted as a raw char outside the class escaper (a raw backslash or bracket makes the pattern invalid)")
     classprinter.raw1(ctx, lib, class_escape_closures(lib))
+    # PAN-6 capacity of the automaton's index type
+    ctx.rule("PAN-6", "every node/edge insertion into the automaton's graph uses an index type of at least 32 bits: petgraph panics when the index space is exhausted, "
+                      "and the trie has one state per distinct prefix of the test cases (thousands of test cases exceed 65535)")
+    n6 = 0
+    for b in lib.bodies:
+        if b.derived:
+            continue
+        for bi, t in b.calls():
+            n = callee_name(t) or ""
+            if re.search(r"^petgraph::.*::(?:add_node|add_edge|update_edge)$", n):
+                targs = [norm(x) for x in (t["callee"].get("res_args") or t["callee"].get("args") or [])]
+                ix = targs[-1] if targs else None
+                n6 += 1
+                if ix in ("u32", "u64", "usize", "u128"):
+                    ctx.ok("PAN-6", "%s:%s<Ix=%s>" % (b.path, n.rsplit("::", 1)[-1], ix), None, b.loc(t.get("line")))
+                elif ix in ("u8", "u16"):
+                    ctx.violation("PAN-6", (b.path, n.rsplit("::", 1)[-1] + " index type"),
+                                  "the automaton's graph is indexed by %s: inserting state/edge number %d panics inside petgraph, so build() panics for test cases with more "
+                                  "distinct prefixes than that" % (ix, 2 ** (8 if ix == "u8" else 16) - 1), b.loc(t.get("line")))
+                else:
+                    ctx.undecided("PAN-6", b.path, "cannot read the index type of %s (%s)" % (n, targs), b.loc(t.get("line")))
+    ctx.floor("PAN-6", "insertions into the automaton's graph", n6, 2)
     # PAN-5 inventory
     inv = {}
     for b in lib.bodies:
